@@ -33,7 +33,7 @@ def _stage_a(ctx):
             ("MC_CompactSize", f"MC_CompactSize_real_{'q' if quick else 't'}.cfg",
              "R=256 values 0.." + ("65538" if quick else "1100000") + " and 2^k-2..2^k+2 for k=1..72", 3),
             ("MC_Tx", f"MC_Tx_{'q' if quick else 't'}.cfg",
-             "n_in 1..2, n_out 1.." + ("1" if quick else "2") + ", script lengths 0..2, witness off / stacks of 0..3 items, "
+             "n_in 1..2, n_out 1 (" + ("2" if quick else "3") + " output choices), script lengths 0..2, witness off / stacks of 0..3 items, "
              "sequences ffffffff/fffffffe/0, trailing none/00/copy/prefix" + ("" if quick else "/01/last/zeros"), 6),
             ("MC_Tx", f"MC_Tx_real_{'q' if quick else 't'}.cfg",
              "real sizes: scripts 252/253/65536 bytes, witness items 252/253/65536, n_in 1.." + ("1" if quick else "2"), 3)]
